@@ -58,11 +58,13 @@ func main() {
 				}
 				files = append(files, f)
 			}
-			info := &types.Info{Types: map[ast.Expr]types.TypeAndValue{}, Selections: map[*ast.SelectorExpr]*types.Selection{}}
+			info := &types.Info{Types: map[ast.Expr]types.TypeAndValue{}, Selections: map[*ast.SelectorExpr]*types.Selection{},
+				Uses: map[*ast.Ident]types.Object{}, Defs: map[*ast.Ident]types.Object{}}
 			conf := types.Config{Importer: imp, Error: func(error) {}}
 			if _, err := conf.Check("sigs.k8s.io/structured-merge-diff/v6/"+p, fset, files, info); err != nil {
 				fmt.Fprintln(os.Stderr, "factgen: type check:", err)
 			}
+			underLock := lockInheritance(files, info)
 			for _, f := range files {
 				fname := p + "/" + filepath.Base(fset.Position(f.Pos()).Filename)
 				for _, d := range f.Decls {
@@ -71,6 +73,7 @@ func main() {
 						continue
 					}
 					fn := funcName(fd)
+					inherits := underLock(fd)
 					ast.Inspect(fd.Body, func(n ast.Node) bool {
 						if rs, ok := n.(*ast.RangeStmt); ok {
 							if tv, ok := info.Types[rs.X]; ok {
@@ -81,8 +84,18 @@ func main() {
 						}
 						return true
 					})
-					accesses = append(accesses, syncAccesses(fname, fn, fd, info)...)
-					calls = append(calls, copyIntoCalls(fname, fn, fd, info)...)
+					for _, a := range syncAccesses(fname, fn, fd, info) {
+						if a.guard == "none" && inherits {
+							a.guard = "locked"
+						}
+						accesses = append(accesses, a)
+					}
+					for _, c := range copyIntoCalls(fname, fn, fd, info) {
+						if c.guard == "none" && inherits {
+							c.guard = "locked"
+						}
+						calls = append(calls, c)
+					}
 				}
 			}
 		}
@@ -102,6 +115,92 @@ func main() {
 	})
 	writeSync(filepath.Join(*out, "SyncFacts.lean"), accesses, calls)
 	fmt.Printf("factgen: %d map ranges, %d shared-field accesses\n", len(ranges), len(accesses))
+}
+
+// firstLock: the position of the first <x>.Lock() call in fd (NoPos if none).
+func firstLock(fd *ast.FuncDecl) token.Pos {
+	pos := token.NoPos
+	ast.Inspect(fd.Body, func(n ast.Node) bool {
+		if ce, ok := n.(*ast.CallExpr); ok {
+			if se, ok := ce.Fun.(*ast.SelectorExpr); ok && se.Sel.Name == "Lock" && pos == token.NoPos {
+				pos = ce.Pos()
+			}
+		}
+		return true
+	})
+	return pos
+}
+
+// lockInheritance: an unexported function all of whose call sites in the package lie after a Lock() in
+// their caller (or in a function that itself inherits the lock) runs under that lock: its accesses
+// count as locked. Exported functions and functions without call sites inherit nothing.
+func lockInheritance(files []*ast.File, info *types.Info) func(*ast.FuncDecl) bool {
+	type site struct {
+		caller *ast.FuncDecl
+		pos    token.Pos
+	}
+	declOf := map[types.Object]*ast.FuncDecl{}
+	var decls []*ast.FuncDecl
+	for _, f := range files {
+		for _, d := range f.Decls {
+			if fd, ok := d.(*ast.FuncDecl); ok && fd.Body != nil {
+				if obj := info.Defs[fd.Name]; obj != nil {
+					declOf[obj] = fd
+				}
+				decls = append(decls, fd)
+			}
+		}
+	}
+	sites := map[*ast.FuncDecl][]site{}
+	for _, caller := range decls {
+		caller := caller
+		ast.Inspect(caller.Body, func(n ast.Node) bool {
+			ce, ok := n.(*ast.CallExpr)
+			if !ok {
+				return true
+			}
+			var id *ast.Ident
+			switch f := ce.Fun.(type) {
+			case *ast.Ident:
+				id = f
+			case *ast.SelectorExpr:
+				id = f.Sel
+			}
+			if id != nil {
+				if callee, ok := declOf[info.Uses[id]]; ok {
+					sites[callee] = append(sites[callee], site{caller, ce.Pos()})
+				}
+			}
+			return true
+		})
+	}
+	// any other mention of the function (as a value) defeats the analysis
+	mentioned := map[*ast.FuncDecl]int{}
+	for id, obj := range info.Uses {
+		_ = id
+		if fd, ok := declOf[obj]; ok {
+			mentioned[fd]++
+		}
+	}
+	var inherits func(fd *ast.FuncDecl, visiting map[*ast.FuncDecl]bool) bool
+	inherits = func(fd *ast.FuncDecl, visiting map[*ast.FuncDecl]bool) bool {
+		if ast.IsExported(fd.Name.Name) || len(sites[fd]) == 0 || mentioned[fd] != len(sites[fd]) || visiting[fd] {
+			return false
+		}
+		visiting[fd] = true
+		defer delete(visiting, fd)
+		for _, s := range sites[fd] {
+			lp := firstLock(s.caller)
+			if lp != token.NoPos && s.pos > lp {
+				continue
+			}
+			if !inherits(s.caller, visiting) {
+				return false
+			}
+		}
+		return true
+	}
+	return func(fd *ast.FuncDecl) bool { return inherits(fd, map[*ast.FuncDecl]bool{}) }
 }
 
 func hasBuildTag(f *ast.File, tag string) bool {
